@@ -228,6 +228,9 @@ pub enum Act {
     KeepAlive(u64),
     /// the client hangs up
     Eof,
+    /// the client does nothing for this many milliseconds of REAL time (the thread sleeps; virtual time
+    /// stands still). For the places where the code under test reads the wall clock (cookie timestamps).
+    RealSleep(u64),
 }
 
 #[derive(Clone, Debug)]
@@ -628,6 +631,7 @@ impl Shared {
                     self.enc_switch_at = Some(self.wire.len());
                 }
             }
+            Act::RealSleep(ms) => std::thread::sleep(std::time::Duration::from_millis(*ms)),
             Act::LoginAck => self.emit_bytes(&codec::sb_login_ack(), g),
             Act::ClientInfo { locale } => self.emit_bytes(&codec::sb_client_information(locale), g),
             Act::Frame { id, body } => self.emit_bytes(&codec::frame(*id, body), g),
@@ -866,7 +870,11 @@ pub struct VStream {
     shared: Arc<Mutex<Shared>>,
     rsleep: Option<Pin<Box<Sleep>>>,
     wsleep: Option<Pin<Box<Sleep>>>,
+    reads_after_eof: u32,
 }
+
+/// prefix of the panic message with which a run is ended when the handler spins after end of stream
+pub const SPIN_MARK: &str = "VERIF-SPIN";
 
 struct Unarmed(bool);
 impl Unarmed {
@@ -905,7 +913,15 @@ impl AsyncRead for VStream {
                     buf.put_slice(&b);
                     return Poll::Ready(Ok(()));
                 }
-                ReadAnswer::Eof => return Poll::Ready(Ok(())),
+                ReadAnswer::Eof => {
+                    // a handler that keeps polling after end of stream would spin forever inside one task
+                    // poll (virtual time cannot advance): end the run loudly instead of hanging the check
+                    this.reads_after_eof += 1;
+                    if this.reads_after_eof > 10_000 {
+                        panic!("{SPIN_MARK}: read polled {} times after end of stream", this.reads_after_eof);
+                    }
+                    return Poll::Ready(Ok(()));
+                }
                 ReadAnswer::Yield => {
                     cx.waker().wake_by_ref();
                     return Poll::Pending;
@@ -1268,7 +1284,7 @@ pub fn run(case: &Case) -> Obs {
         rt.block_on(async {
             let start = Instant::now();
             sh2.lock().unwrap().start = Some(start);
-            let stream = VStream { shared: sh2.clone(), rsleep: None, wsleep: None };
+            let stream = VStream { shared: sh2.clone(), rsleep: None, wsleep: None, reads_after_eof: 0 };
             alloc::arm();
             let mut conn = Connection::new(stream, scripted.clone(), scripted.clone(), scripted.clone(), scripted.clone(), scripted.clone(), loca.clone())
                 .with_client_address(cfg.client_addr)
